@@ -6,6 +6,7 @@ import (
 	"fmt"
 	"go/token"
 	"go/types"
+	"sort"
 	"strings"
 
 	"golang.org/x/tools/go/ssa"
@@ -115,6 +116,39 @@ var ruleEntry = &Rule{
 				} else {
 					out.viol("Exists runs the same core as Query with a nil collector", p.pos(cores[1].Pos()), fnName(x), "Exists evaluates through a different core function than Query")
 				}
+			}
+		}
+		if len(adapter) == 4 {
+			if cs := p.execMethodCalls(adapter["Query"].Call.StaticCallee()); len(cs) == 1 {
+				p.coreTable(out, cs[0].Call.StaticCallee())
+			}
+		}
+		// sibling agreement on configuration: no entry point writes a field of
+		// the Executor that the others do not write
+		{
+			sets := map[string]string{}
+			for _, n := range p.A.EntryOrder {
+				m := map[string]bool{}
+				for _, st := range p.execStores(fns[n]) {
+					m[st.Field.Name()] = true
+				}
+				sets[n] = strings.Join(sortedKeys(m), ",")
+			}
+			same := true
+			for _, n := range p.A.EntryOrder {
+				if sets[n] != sets[p.A.EntryOrder[0]] {
+					same = false
+				}
+			}
+			key := "entry points configure the Executor identically"
+			if same {
+				out.ok(key, p.pos(fns[p.A.EntryOrder[0]].Pos()), "", "fields written directly by each entry point: {"+sets[p.A.EntryOrder[0]]+"}")
+			} else {
+				var d []string
+				for _, n := range p.A.EntryOrder {
+					d = append(d, n+" writes {"+sets[n]+"}")
+				}
+				out.viol(key, p.pos(fns[p.A.EntryOrder[0]].Pos()), "", "an entry point sets Executor state its siblings do not, so the shared evaluation can behave differently for it: "+strings.Join(d, "; "))
 			}
 		}
 		// post-processing tables
@@ -598,4 +632,150 @@ func (p *Prog) ignoreField() *types.Var {
 
 func init() {
 	register(ruleEntry, ruleModePred)
+}
+
+// emptinessPolarity: fn is a one-block bool function comparing len(x) of a
+// field of its receiver with zero: +1 if it is true exactly when empty, -1 if
+// true exactly when non-empty, 0 otherwise.
+func emptinessPolarity(fn *ssa.Function) int {
+	if fn == nil || len(fn.Blocks) != 1 {
+		return 0
+	}
+	r, ok := fn.Blocks[0].Instrs[len(fn.Blocks[0].Instrs)-1].(*ssa.Return)
+	if !ok || len(r.Results) != 1 {
+		return 0
+	}
+	bo, ok := r.Results[0].(*ssa.BinOp)
+	if !ok {
+		return 0
+	}
+	c, ok := bo.X.(*ssa.Call)
+	if !ok {
+		return 0
+	}
+	if b, ok := c.Call.Value.(*ssa.Builtin); !ok || b.Name() != "len" {
+		return 0
+	}
+	k, ok := constInt(bo.Y)
+	if !ok || k != 0 {
+		return 0
+	}
+	switch bo.Op {
+	case token.EQL, token.LEQ:
+		return 1
+	case token.NEQ, token.GTR:
+		return -1
+	}
+	return 0
+}
+
+// coreTable: decision table of the evaluation core (the function both
+// adapters call). With a nil collector in strict mode it evaluates into a
+// fresh list; a failure is propagated, and otherwise the answer depends on
+// the emptiness of that list only: empty → (not found, nil), non-empty →
+// (OK, nil). Everywhere else the evaluation's own pair is returned.
+func (p *Prog) coreTable(out *RuleOut, core *ssa.Function) {
+	key := "decision table of the evaluation core"
+	if core == nil {
+		out.undecided(key, "-", "", "core unresolved")
+		return
+	}
+	var coll *ssa.Parameter
+	for _, q := range core.Params {
+		if pt, ok := q.Type().(*types.Pointer); ok && pt.Elem() == types.Type(p.A.ValueList) {
+			coll = q
+		}
+	}
+	if coll == nil {
+		out.undecided(key, p.pos(core.Pos()), fnName(core), "no collector parameter")
+		return
+	}
+	tx, rows := p.extractTable(core, nil, &TableCfg{})
+	okC, nf, failed := constOf(p.A.StatusConsts["statusOK"]), constOf(p.A.StatusConsts["statusNotFound"]), constOf(p.A.StatusFailed)
+	n := 0
+	var probs []string
+	for _, r := range rows {
+		if r.Loop != nil || len(r.Out) != 2 {
+			continue
+		}
+		var eval, empt *ssa.Call
+		for _, c := range r.Calls {
+			if sig := calleeSig(c); sig != nil && p.pairKind(sig) == "status" {
+				eval = c
+			}
+		}
+		where := p.pos(r.End.Pos())
+		if eval == nil {
+			probs = append(probs, "path at "+where+" returns without evaluating")
+			continue
+		}
+		var evalColl ssa.Value
+		for _, a := range eval.Call.Args {
+			if pt, ok := a.Type().(*types.Pointer); ok && pt.Elem() == types.Type(p.A.ValueList) {
+				evalColl = a
+			}
+		}
+		for _, c := range r.Calls {
+			if c.Call.StaticCallee() != nil && len(c.Call.Args) > 0 && c.Call.Args[0] == evalColl && emptinessPolarity(c.Call.StaticCallee()) != 0 {
+				empt = c
+			}
+		}
+		st, e1 := atomKey(eval, 0), atomKey(eval, 1)
+		names := tx.atomsOf(append(guardTerms(r), r.Out...)...)
+		tx.term(eval, r, 0)
+		names = uniq(sortStrings(append(names, st, e1)))
+		for _, as := range tx.models(r, names) {
+			if (as[e1] == 1) != (as[st] == failed) {
+				continue // incoherent pair (excluded by R-PAIR-P)
+			}
+			n++
+			got, gerr := tx.eval(r.Out[0], as, 0), tx.eval(r.Out[1], as, 0)
+			if evalColl == ssa.Value(coll) {
+				// plain evaluation: the pair is returned as it is
+				if got.Kind != "int" || got.K != as[st] || (as[e1] == 1 && (gerr.Kind != "ref" || gerr.Ref != e1)) || (as[e1] == 0 && gerr.Kind != "nil" && !(gerr.Kind == "ref" && gerr.Ref == e1)) {
+					probs = append(probs, fmt.Sprintf("evaluation into the caller's collector: status %d → (%v, %s) at %s, expected the evaluation's own pair", as[st], got.K, errValName(gerr), where))
+				}
+				continue
+			}
+			// re-collecting branch
+			isNil, _ := nilFact(factsAt(eval.Block()), coll)
+			if !isNil || !p.strictFact(factsAt(eval.Block()), true) {
+				probs = append(probs, "the core evaluates into a private list at "+p.pos(eval.Pos())+" outside the branch 'strict and no collector'")
+			}
+			switch {
+			case as[st] == failed:
+				if got.Kind != "int" || got.K != failed || gerr.Kind != "ref" || gerr.Ref != e1 {
+					probs = append(probs, fmt.Sprintf("failed evaluation → (%v, %s) at %s, expected (failed, that error)", got.K, errValName(gerr), where))
+				}
+			case empt == nil:
+				probs = append(probs, fmt.Sprintf("status %d of the complete evaluation decides the answer at %s without looking at the collected list: Exists can differ from Query", as[st], where))
+			default:
+				ev, has := as[atomKey(empt, 0)]
+				if !has {
+					probs = append(probs, "emptiness is computed but not tested on the path at "+where)
+					continue
+				}
+				isEmpty := (ev == 1) == (emptinessPolarity(empt.Call.StaticCallee()) > 0)
+				want := okC
+				if isEmpty {
+					want = nf
+				}
+				if got.Kind != "int" || got.K != want || gerr.Kind != "nil" {
+					probs = append(probs, fmt.Sprintf("complete evaluation with status %d and empty=%v → (%v, %s) at %s, expected (%d, nil)", as[st], isEmpty, got.K, errValName(gerr), where, want))
+				}
+			}
+		}
+	}
+	sort.Strings(probs)
+	probs = uniq(probs)
+	switch {
+	case n < 6:
+		out.viol(key, p.pos(core.Pos()), fnName(core), fmt.Sprintf("only %d cells found", n))
+	case len(probs) > 0:
+		out.viol(key, p.pos(core.Pos()), fnName(core), probs[0], probs...)
+	default:
+		out.ok(key, p.pos(core.Pos()), fnName(core), fmt.Sprintf("%d (mode, collector, status, error, emptiness) cells agree", n))
+	}
+	out.Counts["core_cells"] = n
+	out.Floors["core_cells"] = 6
 }
